@@ -171,7 +171,7 @@ fn run(t: &mut Tape, cx: &mut Cx) -> Result<(), String> {
             use vm_memory::bitmap::NewBitmap;
             // SAFETY: plain sysconf.
             let ps = unsafe { libc::sysconf(libc::_SC_PAGE_SIZE) } as usize;
-            let bs = byte_size.saturating_mul(if t.flag() { ps / 8 } else { 1 }).min(1 << 26);
+            let bs = byte_size.saturating_mul(if t.flag() { ps / 8 } else { 1 }).min(1 << 22);
             note!(cx, "with_len({})", bs);
             cx.label("with_len");
             (bs, ps, AtomicBitmap::with_len(bs))
